@@ -23,7 +23,7 @@ from harness import core
 
 PROP = 'C16'
 MODULE = 'Props.C16'
-THEOREMS = ['C16_runs_under_profiler', 'C16_same_functions_run', 'C16_registered_exactly_once', 'C16_idempotent',
+THEOREMS = ['C16_sequence_independent', 'C16_each_result_runs_its_own_functions', 'C16_runs_under_profiler', 'C16_same_functions_run', 'C16_registered_exactly_once', 'C16_idempotent',
             'C16_no_second_layer', 'C16_underlying_functions', 'C16_dispatch', 'C16_rebuilt_attributes',
             'C16_shared_function_registered_twice', 'C16_nonvacuous']
 LEVEL = 'proof'
@@ -130,12 +130,60 @@ def shared_cases():
             dict(term=['pr', ['pt', f], f, f], tag='shared')]
 
 
+def max_id(t):
+    if t is None:
+        return 0
+    if t[0] in ('fn', 'wr'):
+        return t[2]
+    return max([max_id(x) for x in t[1:] if isinstance(x, list)] + [0])
+
+
+def sibling(t, ids):
+    """the same shape built from fresh, not yet profiled functions"""
+    if t is None:
+        return None
+    if t[0] in ('fn', 'wr'):
+        ids[0] += 1
+        return ['fn', t[1], ids[0]]
+    return [t[0]] + [sibling(x, ids) if (isinstance(x, list) or x is None) else x for x in t[1:]]
+
+
+def with_variant(c, deco, same_def, nsib):
+    """entry point (a LineProfiler called directly / the explicit `line_profiler.profile`, enabled), how the
+    functions were defined (textually identical defs in different files / one def executed several times
+    with different defaults), and how many objects of the same shape were decorated just before, inline,
+    so that the decorated originals are temporaries."""
+    c = dict(c, deco=deco, same_def=same_def)
+    ids = [max_id(c['term'])]
+    c['before'] = [sibling(c['term'], ids) for _ in range(nsib)]
+    return c
+
+
+def variant_block():
+    out = []
+    for d in (1, 2):
+        for ch in chains(d, ['fn', 'wr'] + UNARY):
+            for k in range(4):
+                for deco in ('lp', 'global'):
+                    for same_def in (False, True):
+                        out.append(with_variant(dict(term=mk(ch, k, [0]), tag='seq%d' % d), deco, same_def, 3))
+    for g, st in ((['fn'], ['fn']), (['pt', 'fn'], None), (None, ['fn'])):
+        for deco in ('lp', 'global'):
+            for same_def in (False, True):
+                ids = [0]
+                t = ['pr'] + [None if c is None else mk(c, 0, ids) for c in (g, st, None)]
+                out.append(with_variant(dict(term=t, tag='seq-prop'), deco, same_def, 3))
+    return out
+
+
 def gen_cases(tier, rnd):
     if tier == 'quick':
         ex, nr, md = 4, 400, 6
     else:
         ex, nr, md = 6, 40000, 10
-    cases = shared_cases() + exhaustive(ex) + [rand_case(rnd, md) for _ in range(nr)]
+    plain = exhaustive(ex) + [rand_case(rnd, md) for _ in range(nr)]
+    plain = [with_variant(c, rnd.choice(['lp', 'lp', 'global']), rnd.random() < 0.3, rnd.choice([0, 0, 0, 2])) for c in plain]
+    cases = shared_cases() + variant_block() + plain
     return cases, dict(exhaustive_chain_depth=ex, random=nr, random_max_depth=md)
 
 
@@ -216,6 +264,37 @@ def py_spec_why(r, shared=False):
     return None
 
 
+def expected_ids(t, acc):
+    """the leaf ids Python itself runs when the (undecorated) object is used through access acc"""
+    if t is None:
+        return []
+    if t[0] in ('fn', 'wr'):
+        return [t[2]]
+    if t[0] == 'pr':
+        return expected_ids({1: t[1], 2: t[2], 3: t[3]}.get(acc), 0) if acc in (1, 2, 3) else []
+    if t[0] == 'cp' and acc == 4:
+        return []
+    return expected_ids(t[1], 0)
+
+
+def sib_why(c, r):
+    sibs = c.get('before', [])
+    if not sibs or r.get('err'):
+        return None
+    for st, runs in zip(sibs, r['sib_runs']):
+        if any(d < 1 for d in depths(runs)):
+            return 'an object decorated earlier in a row runs its function with enable_count < 1'
+        if run_ids(runs) != expected_ids(st, r['sib_access']) + [-2]:
+            return ('an object decorated inline in a row (the original was a temporary) runs functions %r instead of its '
+                    'own %r' % (run_ids(runs)[:-1], expected_ids(st, r['sib_access'])))
+        for f in run_ids(runs):
+            if f != -2 and r['sib_regs'].count(f) != 1:
+                return 'function %d of an object decorated in a row is registered %d times' % (f, r['sib_regs'].count(f))
+    if r['sib_hits'] != r['sib_execs']:
+        return 'hit counts %r of the objects decorated in a row differ from the exact executions %r' % (r['sib_hits'], r['sib_execs'])
+    return None
+
+
 def py_spec(r, shared=False):
     return py_spec_why(r, shared) is None
 
@@ -224,7 +303,8 @@ def run_cases(impl, cases, per=300):
     chunks = core.chunks(cases, per)
 
     def one(ch):
-        return core.run_impl(impl, DRIVER, dict(cases=[dict(term=c['term']) for c in ch]), timeout=900)['results']
+        return core.run_impl(impl, DRIVER, dict(cases=[dict(term=c['term'], deco=c.get('deco', 'lp'), same_def=c.get('same_def', False),
+                                                           before=c.get('before', [])) for c in ch]), timeout=900)['results']
     with ThreadPoolExecutor(max_workers=min(core.NCPU, max(1, len(chunks)))) as ex:
         res = list(ex.map(one, chunks))
     return [r for rs in res for r in rs]
@@ -234,7 +314,14 @@ def coq_row(c, r):
     obs = '(mk_obs %s %s %s %s %s %s %s %s)' % (zl(r['funcs1']), zl(r['shape1']), zl(r['funcs2']), zl(r['shape2']),
                                                zl(r['orig']), zl(r['runs1']), zl(r['runs2']), zl(r['execs']))
     plan = core.coq_list(['(%s, %s)' % (ACC[a], core.coq_z(d)) for a, d in r['plan']])
-    return '(case_ok %s %s %s %s %s)' % (coq_term(c['term']), zl(r['regs0']), plan, obs, zl(r['hits']))
+    main = '(case_ok %s %s %s %s %s)' % (coq_term(c['term']), zl(r['regs0']), plan, obs, zl(r['hits']))
+    sibs = c.get('before', [])
+    if not sibs:
+        return main
+    return '(both %s (sibs_ok %s %s %s %s %s %s %s))' % (
+        main, ACC[r['sib_access']], core.coq_list([coq_term(x) for x in sibs]), zl(r['sib_regs']),
+        core.coq_list([zl(x) for x in r['sib_shapes']]), core.coq_list([zl(x) for x in r['sib_runs']]),
+        zl(r['sib_execs']), zl(r['sib_hits']))
 
 
 def run(tier, seed):
@@ -251,10 +338,10 @@ def run(tier, seed):
     t_impl = time.time() - t1
 
     def search(budget):
-        c2 = exhaustive(4) + [rand_case(core.rng(seed + 1, PROP), 7) for _ in range(1500)]
+        c2 = variant_block() + exhaustive(4) + [rand_case(core.rng(seed + 1, PROP), 7) for _ in range(1500)]
         o2 = run_cases(impl, c2)
         for c, r in zip(c2, o2):
-            w = py_spec_why(r)
+            w = py_spec_why(r) or sib_why(c, r)
             if w:
                 return dict(case=c, impl=r, why=w + ' (search)', finding=None)
         return None
@@ -264,7 +351,7 @@ def run(tier, seed):
     flagged = set()
     t_coq = 0.0
     if model_ok:
-        per = 200
+        per = 100
         idx = [j for j, r in enumerate(outs) if not r.get('err')]
         bodies = []
         for chunk in core.chunks(idx, per):
@@ -289,17 +376,17 @@ def run(tier, seed):
                     continue     # only the 'registered once' clause fails, outside its hypotheses
                 flagged.add(j)
                 res.spec_fails.append(dict(case=cases[j], impl=outs[j],
-                                           why='Coq-side spec: ' + str(py_spec_why(outs[j])), finding=None))
+                                           why='Coq-side spec: ' + str(py_spec_why(outs[j]) or sib_why(cases[j], outs[j])), finding=None))
     n_py_only = 0
     for j, (c, r) in enumerate(zip(cases, outs)):
-        w = py_spec_why(r, shared=(c['tag'] == 'shared'))
+        w = py_spec_why(r, shared=(c['tag'] == 'shared')) or sib_why(c, r)
         if w and j not in flagged:
             if not r.get('err'):
                 n_py_only += 1
             res.spec_fails.append(dict(case=c, impl=r, why=w, finding=None))
     if model_ok and n_py_only:
         res.infra_errors.append('python-side and Coq-side spec predicates disagree on %d case(s)' % n_py_only)
-    res.spec_fails.sort(key=lambda sf: len(json.dumps(sf['case']['term'])))
+    res.spec_fails.sort(key=lambda sf: len(json.dumps([sf['case']['term'], sf['case'].get('before')])))
 
     # ---- evidence ---------------------------------------------------------------------
     ok = [(c, r) for c, r in zip(cases, outs) if not r.get('err')]
@@ -324,6 +411,10 @@ def run(tier, seed):
         depth_histogram=dh, top_constructor_histogram=th, case_kinds=kh,
         consumption_modes=(lambda h: h)({m: sum(r.get('modes', []).count(m) for r in outs) * 3
                                         for m in ('exhaust', 'close', 'throw', 'drop')}),
+        decorated_through_line_profiler_profile=sum(1 for c in cases if c.get('deco') == 'global'),
+        functions_from_one_def_with_different_defaults=sum(1 for c in cases if c.get('same_def')),
+        cases_with_objects_decorated_in_a_row=sum(1 for c in cases if c.get('before')),
+        objects_decorated_in_a_row=sum(len(c.get('before', [])) for c in cases),
         uses_from_a_worker_thread_while_main_is_inside_a_profiled_section=sum(
             r.get('modes', []).count('thread:worker') for r in outs) * 3,
         uses_in_main_thread_while_a_worker_is_inside_a_profiled_section=sum(
@@ -366,6 +457,6 @@ def replay(path):
     impl = core.build_impl()
     c = data['case']
     r = run_cases(impl, [c])[0]
-    w = py_spec_why(r)
+    w = py_spec_why(r, shared=(c.get('tag') == 'shared')) or sib_why(c, r)
     print(json.dumps(dict(case=c, impl=r, holds=w is None, why=w), indent=1))
     return 0 if w is None else 1
